@@ -20,6 +20,7 @@ type Reply struct {
 	I    int64
 	A    []Reply
 	Null bool // RESP2 null array / null bulk flavour hint
+	Raw  string // if not empty: these bytes are sent as they are (e.g. a RESP3 streamed string)
 }
 
 func Simple(s string) Reply { return Reply{T: '+', S: s} }
@@ -48,6 +49,9 @@ func Strs(ss ...string) Reply {
 
 // Encode renders r for a RESP3 (v3=true) or RESP2 session.
 func Encode(b []byte, r Reply, v3 bool) []byte {
+	if r.Raw != "" {
+		return append(b, r.Raw...)
+	}
 	switch r.T {
 	case '+', '-':
 		b = append(b, r.T)
